@@ -18,6 +18,12 @@ import (
 	meta_v1 "k8s.io/apimachinery/pkg/apis/meta/v1"
 )
 
+// VerifPEMPair returns a self-signed certificate and key, stable per label within the process.
+func VerifPEMPair(label string) (cert, key []byte) {
+	p := verifPair(label)
+	return p.cert, p.key
+}
+
 // VerifReloadsEnabled exposes the reload gate.
 func (cnf *Configurator) VerifReloadsEnabled() bool { return cnf.isReloadsEnabled }
 
@@ -43,7 +49,7 @@ func VerifNewRecConfigurator(isPlus, dynWeights, dynSSL bool) (*Configurator, *n
 	cnf := NewConfigurator(ConfiguratorParams{
 		NginxManager: rm,
 		StaticCfgParams: &StaticConfigParams{NginxStatus: true, NginxStatusAllowCIDRs: []string{"127.0.0.1"}, NginxStatusPort: 8080,
-			TLSPassthrough: true, NginxVersion: rm.Version(), DynamicWeightChangesReload: dynWeights, DynamicSSLReload: dynSSL},
+			TLSPassthrough: true, NginxVersion: rm.Version(), DynamicWeightChangesReload: dynWeights, DynamicSSLReload: dynSSL, StaticSSLPath: rm.GetSecretsDir()},
 		Config:                    NewDefaultConfigParams(ctx, isPlus),
 		MGMTCfgParams:             NewDefaultMGMTConfigParams(ctx),
 		TemplateExecutor:          te,
